@@ -445,3 +445,22 @@ Proof.
         exact (need_of_decided x cpuP memP d0 Hcool Hmin Hb Hne Hp Hdec Hpos).
       * apply up_attempted_none. apply (need_of_not_up x cpuP memP Hcool Hmin Hb Hne Hp). unfold st2_of. rewrite Hdec. exact Hnon.
 Qed.
+
+(* the same two rules, restricted to the situations C03 and C04 speak about *)
+Theorem group_passes_C03_recover now gdry api g a nodes pods :
+  let x := ctx_of now gdry api g a nodes pods in
+  NoDup (map n_name (x_nodes x)) ->
+  check_C03_recover x (r_calls (scan_of now gdry api g a nodes pods)) = true.
+Proof.
+  intros x Hnd. unfold check_C03_recover. destruct (below_min_recovery x); [|reflexivity].
+  apply andb_true_intro. split; [apply group_passes_C07_exact; exact Hnd | apply group_passes_up_attempted].
+Qed.
+
+Theorem group_passes_C04_exact now gdry api g a nodes pods :
+  let x := ctx_of now gdry api g a nodes pods in
+  NoDup (map n_name (x_nodes x)) ->
+  check_C04_exact x (r_calls (scan_of now gdry api g a nodes pods)) = true.
+Proof.
+  intros x Hnd. unfold check_C04_exact. destruct (clamp_binds x _); [|reflexivity].
+  apply andb_true_intro. split; [apply group_passes_C07_exact; exact Hnd | apply group_passes_up_attempted].
+Qed.
